@@ -200,6 +200,9 @@ func c05Rules(p *core.Prog, r *core.Run) {
 
 	// --- P6
 	c05Rejections(p, r, m, "C05.P6")
+
+	// --- P7: NewConn leaves no deadline behind on the connection it hands on
+	watcherRules(p, r, "C05.P7")
 }
 
 func isCHFieldObj(m *echModel, e *core.Expr) bool {
